@@ -232,9 +232,92 @@ class CallGraph:
         return False
 
     # -------------------------------------------------------------- resolution
+    def _narrowed(self, name: str, node: ast.AST, f: Func) -> List[ClassInfo]:
+        """Classes K such that node lies in the true-branch of `if isinstance(name, K)` (nearest guard)."""
+        child = node
+        p = getattr(node, "_parent", None)
+        while p is not None and p is not f.node:
+            if isinstance(p, ast.If) and any(child is s for s in p.body):
+                t = p.test
+                tests = t.values if isinstance(t, ast.BoolOp) and isinstance(t.op, ast.And) else [t]
+                for tt in tests:
+                    if isinstance(tt, ast.Call) and isinstance(tt.func, ast.Name) and tt.func.id == "isinstance" and len(tt.args) == 2 and isinstance(tt.args[0], ast.Name) and tt.args[0].id == name:
+                        ks = tt.args[1].elts if isinstance(tt.args[1], ast.Tuple) else [tt.args[1]]
+                        out = []
+                        for k in ks:
+                            if isinstance(k, ast.Name):
+                                ci = self._class_visible(k.id, f)
+                                if ci is not None:
+                                    out.append(ci)
+                        if out:
+                            return out
+            child = p
+            p = getattr(p, "_parent", None)
+        return []
+
+    def _class_dict(self, name: str, f: Func) -> List[ClassInfo]:
+        """name = D[key] where D is a dict literal of classes (or name = type(x)(...))."""
+        g: Optional[Func] = f
+        while g is not None:
+            for n in g.own_nodes():
+                if isinstance(n, ast.Assign) and len(n.targets) == 1 and isinstance(n.targets[0], ast.Name) and n.targets[0].id == name:
+                    v = n.value
+                    if isinstance(v, ast.Subscript) and isinstance(v.value, ast.Name):
+                        return self._dict_classes(v.value.id, g)
+            g = g.parent
+        return []
+
+    def _dict_classes(self, dname: str, f: Func) -> List[ClassInfo]:
+        g: Optional[Func] = f
+        while g is not None:
+            for n in g.own_nodes():
+                if isinstance(n, ast.Assign) and len(n.targets) == 1 and isinstance(n.targets[0], ast.Name) and n.targets[0].id == dname and isinstance(n.value, ast.Dict):
+                    out = []
+                    for v in n.value.values:
+                        if isinstance(v, ast.Name):
+                            ci = self._class_visible(v.id, g)
+                            if ci is not None:
+                                out.append(ci)
+                    return out
+            g = g.parent
+        return []
+
+    def _var_classes(self, name: str, node: ast.AST, f: Func, env) -> List[ClassInfo]:
+        nar = self._narrowed(name, node, f)
+        if nar:
+            return nar
+        if name in env:
+            return [env[name]]
+        # x = K(...) handled by local_types; x = array_class(...) / type(y)(...)
+        g: Optional[Func] = f
+        while g is not None:
+            for n in g.own_nodes():
+                if isinstance(n, ast.Assign) and len(n.targets) == 1 and isinstance(n.targets[0], ast.Name) and n.targets[0].id == name and isinstance(n.value, ast.Call):
+                    fnc = n.value.func
+                    if isinstance(fnc, ast.Name):
+                        cs = self._class_dict(fnc.id, g)
+                        if cs:
+                            return cs
+                    if isinstance(fnc, ast.Call) and isinstance(fnc.func, ast.Name) and fnc.func.id == "type" and fnc.args and isinstance(fnc.args[0], ast.Name):
+                        inner = self._var_classes(fnc.args[0].id, n, g, self.local_types(g))
+                        if inner:
+                            return inner
+            g = g.parent
+        return []
+
     def _resolve_attr_call(self, fn: ast.Attribute, f: Func, env: Optional[Dict[str, ClassInfo]] = None) -> List[Func]:
         env = env if env is not None else self.local_types(f)
         v = fn.value
+        if isinstance(v, ast.Name) and v.id not in self.self_aliases(f):
+            cands = self._var_classes(v.id, fn, f, env)
+            if cands:
+                out = []
+                for ci in cands:
+                    m = self.t.find_method(ci, fn.attr)
+                    if m is not None and m not in out:
+                        out.append(m)
+                if out:
+                    return out
         if isinstance(v, ast.Name):
             if v.id in self.self_aliases(f) and f.cls is not None:
                 m = self.t.find_method(f.cls, fn.attr)
